@@ -376,6 +376,12 @@ V = [
     ("C15", B, "export other format", RIO,
      'np.savetxt(upath, user.flatten(), fmt="%.2e")', 'np.savetxt(upath, user.flatten(), fmt="%.1f")', "C15-R4"),
     ("C15", B, "weights not normalised", RAT, "        weight /= np.sum(weight)\n", "", "C15-R5"),
+    ("C15", B, "response read without a dimension (F37)", RAT,
+     "        response = np.loadtxt(resp_path, dtype=float, ndmin=1)\n",
+     "        response = np.loadtxt(resp_path, dtype=float)\n", "C15-R7"),
+    ("C15", N, "response wrapped in atleast_1d", RAT,
+     "        response = np.loadtxt(resp_path, dtype=float, ndmin=1)\n",
+     "        response = np.atleast_1d(np.loadtxt(resp_path, dtype=float))\n", ""),
     ("C15", N, "any-form mask", RAT,
      "valid = ~np.array(np.sum(np.isnan(samples), axis=1), dtype=bool)",
      "valid = ~np.any(np.isnan(samples), axis=1)", ""),
